@@ -378,6 +378,8 @@ class CallMixin:
             return ExcV(c, [a for a in args if isinstance(a, V)], node)
         if name in KIND_NAMES and h is None:
             self.emit("call", node, callee=name, args=args, kwargs=kwargs, resolved=True, external=True)
+            if name in PARTIAL_CALLS and args:
+                self.partial(name, PARTIAL_CALLS[name] + (TypeError,), node, operands=tuple(a for a in args if isinstance(a, V)))
             return Term("call", (name,) + tuple(a for a in args if isinstance(a, V)), kind=KIND_NAMES[name], node=node)
         if h is not None:
             r = h(args, kwargs, node)
@@ -395,7 +397,9 @@ class CallMixin:
                 "builtins.chr": "str"}.get(name)
         if name == "builtins.round" and len(args) >= 2:
             kind = "float"
-        return Term("call", (name,) + tuple(a for a in args if isinstance(a, V)), kind=kind, node=node)
+        kw_terms = tuple(Term("kw", (k, v)) for k, v in sorted(kwargs.items()) if isinstance(v, V) and not k.startswith("**")) \
+            if name in ("math.isclose",) else ()
+        return Term("call", (name,) + tuple(a for a in args if isinstance(a, V)) + kw_terms, kind=kind, node=node)
 
     def x_isinstance(self, args: List[V], kwargs: Dict[str, V], node: Any) -> Optional[V]:
         if len(args) != 2:
@@ -919,6 +923,12 @@ class CallMixin:
                     return StrV(pieces)
                 return Term("join", (recv, x), kind="str", node=node)
             if attr == "format":
+                if isinstance(recv, StrV) and any(not isinstance(pc, str) and self.kind_of(pc[0]) not in ("int", "float", "bool")
+                                                  for pc in recv.pieces):
+                    # the TEMPLATE itself embeds a runtime value (f-string / concatenation, then .format): braces inside
+                    # that value are parsed as replacement fields
+                    self.partial("format-template", (KeyError, IndexError, ValueError), node,
+                                 operands=(recv,) + tuple(a for a in args if isinstance(a, V)))
                 if isinstance(recv, Const):
                     import string as _string
                     pieces2: List[Any] = []
